@@ -23,6 +23,7 @@ def model (line : String) : String :=
       let xs := (List.range n.toNat).map (fun i => x0 + (Int.ofNat i) * step)
       showInts (xs.map (fun x => invert c x)) ++ " | " ++ showInts (xs.map (fun x => invert c (invert c x)))
     | _, _ => "bad-op"
+  | ["mulall", _] => "fails=0 first=none"   -- every pair satisfies the Spec (C07_mul16_* theorems)
   | ["mulf", a, b] =>
     match ints [a, b] with
     | some [a, b] => showInts [bitsOf (f32 a * f32 b), bitsOf (f32 b * f32 a)]
@@ -68,6 +69,7 @@ def judge (op obs : String) : String :=
         | none => "ok"
       | _, _ => fail ("not-a-value:" ++ obs.take 40)
     | _, _ => fail "bad-op"
+  | ["mulall", _] => if obs.startsWith "fails=0 " then "ok" else fail ("exhaustive-sweep " ++ obs)
   | ["mulf", a, b] =>
     match ints [a, b], ints (words obs) with
     | some [a, b], some [r, r2] =>
